@@ -20,10 +20,21 @@ def adapter_class(I):
     return I.module_attr(mod, "SklearnEKFAdapter")
 
 
+class FieldVal(SObj):
+    """An opaque Config field value whose truth value is symbolic (flags such as extra_validation are tested by the code)."""
+
+    def __init__(self, I, tag):
+        super().__init__("Val", {}, tag)
+        self.truth = I.path.fresh_bool(f"{tag.split('.')[-1]}_is_truthy")
+
+    def pvc_truth(self, I):
+        return self.truth
+
+
 def config_obj(I, tag="cfg"):
     mod = I.load_module("formak.python")
     cls = I.module_attr(mod, "Config")
-    return SObj(cls, {f: SObj("Val", {}, f"{tag}.{f}") for f in CONFIG_FIELDS}, tag)
+    return SObj(cls, {f: FieldVal(I, f"{tag}.{f}") for f in CONFIG_FIELDS}, tag)
 
 
 class DiagFlatten(Contract):
@@ -369,7 +380,7 @@ class Fit(Contract):
             def pvc_truth(self2, I2):
                 return self2.nonempty
 
-        self.vals = {k: (MappingVal(f"orig.{k}") if k in ("process_noise", "sensor_models", "sensor_noises", "calibration_map") else SObj("Val", {}, f"orig.{k}")) for k in ALLOWED}
+        self.vals = {k: (MappingVal(f"orig.{k}") if k in ("process_noise", "sensor_models", "sensor_noises", "calibration_map") else (config_obj(I, "orig.config") if k == "config" else SObj("Val", {}, f"orig.{k}"))) for k in ALLOWED}
         obj = SObj(cls, dict(self.vals), "adapter")
         self.log = []
         contract = self
